@@ -30,6 +30,7 @@ Statements (tuples):
   ('macro', name, params, globalsymbols, body)    body: def/ref/nop/section/endsection/decl statements, names may be parameters
                                     value 'PC' of a labelstmt definition = current program counter
   ('call', name, args)              ('nop',)
+  ('rept', count, None, globalsymbols, body)   ('irp', param, [args], globalsymbols, body)   ('irpc', param, string, globalsymbols, body)
 """
 import re
 
@@ -112,6 +113,7 @@ class Result:
         self.warnings = []
         self.symtab = []        # (canonical name, canonical section name, final value) non-temporary, not macro-local
         self.stackops = []
+        self.tablekeys = set()
         self.end_pc = None
         self.nsections = 0
         self.maxdepth = 0
@@ -208,6 +210,7 @@ class Model:
         self.res.end_pc = self.pc
         self.res.nsections = self.nsect
         self.resolve_all()
+        self.res.tablekeys = set(self.table.keys())
         for (iname, sid), sym in self.table.items():
             if iname[0] == 'N' and not isinstance(sym.final(), tuple):
                 self.res.symtab.append((iname[1], sym.sect.name, sym.final()))
@@ -308,6 +311,30 @@ class Model:
             self.lastglob_ctx = None
             for b in m[4]:
                 self.exec(b, line, e)
+            self.lastglob_ctx = None
+        elif op in ('rept', 'irp', 'irpc'):
+            # "labels are local to the individual repetitions" unless {GLOBALSYMBOLS}: every repetition is an
+            # expansion of its own
+            if exp is not None:
+                raise Unspecified('repetition inside a macro body')
+            if op == 'rept':
+                substs = [{} for _ in range(st[1])]
+            elif op == 'irp':
+                substs = [{st[1]: a} for a in st[2]]
+            else:
+                substs = [{st[1]: c} for c in st[2]]
+            for sub in substs:
+                e = Expansion()
+                self.nexp += 1
+                e.id = self.nexp
+                e.locals = {}
+                e.globalsyms = st[3]
+                e.subst = sub
+                e.sect = self.cur
+                self.expansions.append(e)
+                self.lastglob_ctx = None
+                for b in st[4]:
+                    self.exec(b, line, e)
             self.lastglob_ctx = None
         else:
             raise Unspecified('unknown statement ' + op)
